@@ -19,8 +19,11 @@ package output
 //@          sortseq(outDefBag(target.Outputs, target.BinOutput))[i] == sortseq(bagOf(storedDefsOf(targetResult.Outputs)))[i])
 //@   ensures [failure_leaves_flag] err != nil ==> target.OutputsLoaded == old(target.OutputsLoaded) && target.OutputHash == old(target.OutputHash)
 //@   ensures [success_requires_every_load] err == nil && !old(target.OutputsLoaded) ==> (forall j int :: {tasks[j]} 0 <= j && j < len(tasks) ==> taskOK(tasks[j]))
+//@   ensures [one_load_per_stored_output] err == nil && !old(target.OutputsLoaded) ==> len(tasks) == len(targetResult.Outputs)
 //@   ghostset target.restoreTried := true
 //@   ghostset target.restored := err == nil
+//@ loop #1
+//@   invariant [one_task_per_output_so_far] len(tasks) == rangeindex + 1
 //@ loop #2
 //@   invariant [waited_ok] forall j int :: {tasks[j]} 0 <= j && j <= rangeindex ==> taskOK(tasks[j])
 
@@ -31,8 +34,12 @@ package output
 //@   ensures [result_shape] err == nil ==> res != nil && res.ChangeHash == target.ChangeHash
 //@   ensures [nil_on_error] err != nil ==> res == nil
 //@   ensures [success_requires_every_write] err == nil ==> (forall j int :: {tasks[j]} 0 <= j && j < len(tasks) ==> taskOK(tasks[j]))
+// C14: ... and there is one write per declared output (an output that is never handed to its handler is never found missing)
+//@   ensures [one_write_per_declared_output] err == nil ==> len(tasks) == len(outputs)
 //@   ghostset res.complete := err == nil
 //@   ghostset target.outputsStored := err == nil
+//@ loop #1
+//@   invariant [one_task_per_output_so_far] len(tasks) == rangeindex + 1
 //@ loop #2
 //@   invariant [waited_ok] forall j int :: {tasks[j]} 0 <= j && j <= rangeindex ==> taskOK(tasks[j])
 
@@ -44,8 +51,11 @@ package output
 //@   ensures [nil_on_error] err != nil ==> res == nil
 //@   ensures [hash_is_a_function_of_the_digest_bag] err == nil ==> res.OutputHash == H(joinOf(sortseq(bagOf(digests)), ","))
 //@   ensures [success_requires_every_hash] err == nil ==> (forall j int :: {tasks[j]} 0 <= j && j < len(tasks) ==> taskOK(tasks[j]))
+//@   ensures [one_hash_per_declared_output] err == nil ==> len(tasks) == len(outputs)
 //@   ghostset nocacheHashings := nocacheHashings + 1
 //@   ghostset lastNoCacheHash := ite(err == nil, res.OutputHash, lastNoCacheHash)
+//@ loop #1
+//@   invariant [one_task_per_output_so_far] len(tasks) == rangeindex + 1
 //@ loop #2
 //@   invariant [waited_ok] forall j int :: {tasks[j]} 0 <= j && j <= rangeindex ==> taskOK(tasks[j])
 
